@@ -12,6 +12,11 @@ use std::cell::RefCell;
 pub enum DispatchPhase {
     /// After one outer-loop iteration (one train was advanced / rewound).
     AfterMove,
+    /// Inside the inner loop, after one tentative `advance` and its deadlock check.
+    AfterAdvance,
+    /// Inside the inner loop, right after the moved train was rewound to its fixed position
+    /// and the other trains' free paths were recomputed.
+    AfterRewind,
     /// Once, just before the timed paths are computed and returned.
     Final,
 }
